@@ -178,8 +178,64 @@ def rule_R05_4(ctx):
     return r
 
 
+LIST_RESIZE = ("push", "extend", "append", "insert", "remove", "truncate", "clear", "resize",
+               "drain", "retain", "pop", "swap_remove", "extend_from_slice", "split_off", "dedup")
+OBJ_SHRINK = ("remove", "clear", "retain", "pop_first", "pop_last", "split_off", "append", "extend")
+SHARING_OBSERVERS = ("strong_count", "weak_count", "get_mut", "try_unwrap", "into_inner", "make_mut")
+
+
+def rule_R05_5(ctx):
+    prog = ctx.prog
+    r = RuleResult("R05.5", "a shared list never changes length in place, a "
+                   "shared object never loses properties, and behaviour never "
+                   "depends on how many aliases exist",
+                   "growing a list in place (e.g. an `x += y` fast path) is "
+                   "visible through every alias where a new container is "
+                   "documented; branching on the reference count makes the "
+                   "result depend on aliasing")
+    n = 0
+    for f in prog.hand_fns():
+        if f.from_expansion:
+            continue
+        gf = locks.GuardFlow(f)
+        for c in f.calls():
+            if c.is_ptr:
+                continue
+            res = c.res or ""
+            name = res.split("::")[-1]
+            a0 = c.argtys[0] if c.argtys else ""
+            if name in SHARING_OBSERVERS and ("std::sync::Arc<" in a0 or "Arc::<" in res) \
+                    and "eval::value::" in (c.res_full or "") + a0:
+                r.fail("%s | observes sharing via %s" % (f.path, name),
+                       "%s inspects the reference count / uniqueness of a "
+                       "value cell (%s): behaviour can depend on the number "
+                       "of aliases" % (f.path, res), where=c.loc)
+                continue
+            is_list = "std::vec::Vec<eval::value::SourcedValue" in a0 and a0.startswith("&mut")
+            is_obj = "std::collections::BTreeMap<std::string::String, eval::value::SourcedValue" in a0 \
+                and a0.startswith("&mut")
+            if not ((is_list and name in LIST_RESIZE) or (is_obj and name in OBJ_SHRINK)):
+                continue
+            n += 1
+            # receiver derived from a guard (a shared cell) or from a local value under construction?
+            srcs = locks.backward_sources(f, c.args[0], set(gf.guards))
+            shared = any(x[0] == "guard" for x in srcs)
+            r.inst("%s: %s on %s" % (f.path, name, "a shared cell" if shared else "a local value"))
+            if shared:
+                r.fail("%s | resizes shared container via %s" % (f.path, name),
+                       "%s calls %s on the contents of a shared list/object "
+                       "cell; the change is visible through every alias"
+                       % (f.path, res), where=c.loc)
+            else:
+                r.ok()
+    r.notes.append("length-changing container calls inspected: %d" % n)
+    if not r.violations and not n:
+        r.ok()
+    return r
+
+
 def run(ctx):
-    return [rule_R05_1(ctx), rule_R05_2(ctx), rule_R05_3(ctx), rule_R05_4(ctx)]
+    return [rule_R05_1(ctx), rule_R05_2(ctx), rule_R05_3(ctx), rule_R05_4(ctx), rule_R05_5(ctx)]
 
 
 META = {
